@@ -351,10 +351,12 @@ def linear(e: ast.AST) -> Tuple[Dict[str, float], float, Dict[str, ast.AST]]:
             if not b:
                 return {k: cb * v for k, v in a.items()}, ca * cb
             raise NotLinear(q.unparse(x))
-        if isinstance(x, ast.BinOp) and isinstance(x.op, ast.Div):
+        if isinstance(x, ast.BinOp) and isinstance(x.op, (ast.Div, ast.FloorDiv)):
             a, ca = go(x.left)
             b, cb = go(x.right)
             if not b and cb:
+                if isinstance(x.op, ast.FloorDiv) and a:
+                    atoms["__floor__"] = x  # the quotient is rounded down: the linear form is only approximate
                 return {k: v / cb for k, v in a.items()}, ca / cb
             raise NotLinear(q.unparse(x))
         t = q.unparse(x)
@@ -675,6 +677,10 @@ class Escapes:
                         if isinstance(v.func, ast.Attribute) and ("." + a2) in self.trusted_arity and self.trusted_arity["." + a2] == n:
                             continue
                     if is_t(v):
+                        got = facts_at(x)
+                        if got is not None and _len_exactly(got[0], v, n):
+                            self.guarded.append((fi, x, "unpacking %d values from a sequence whose length was tested to be %d" % (n, n)))
+                            continue
                         add(x, "ValueError", "unpack", "%d targets" % n)
                     else:
                         self.notes.append("%s: unpack of untainted %s not considered" % (fi.qualname, q.unparse(v)))
@@ -709,6 +715,21 @@ class Escapes:
 
     def unprotected(self, fi: FuncInfo) -> List[Site]:
         return [s for s in self.sites(fi) if s.handler is None and not (s.kind == "assert" and self._narrowing(fi, s))]
+
+
+def _len_exactly(facts, seq: ast.AST, n: int) -> bool:
+    want = "len(%s)" % q.unparse(seq)
+    for e, pol, _t in parsed_facts(facts):
+        eq = equality_fact(e, pol)
+        if eq is not None and eq[2]:
+            for u, v in ((eq[0], eq[1]), (eq[1], eq[0])):
+                if q.unparse(u) == want:
+                    try:
+                        if q.fold(v, {}) == n:
+                            return True
+                    except q.NotFoldable:
+                        pass
+    return False
 
 
 def _len_at_least(facts: FrozenSet[Tuple[str, bool]], seq: ast.AST, need: int) -> bool:
@@ -773,3 +794,99 @@ def edge_dominates(cfg: CFG, test: Node, kind: str, target: Node) -> bool:
                 seen.add(y)
                 st.append(y)
     return target.id not in seen and target.id in cfg.reachable()
+
+
+# ---------------------------------------------------------------------------
+# round 3: recogniser generality helpers
+
+
+def norm_unpack(e: ast.AST) -> ast.AST:
+    """``__unpack__(S, i, n)`` -> ``S[i]`` everywhere (an element of a sequence is the same
+    value whether it was taken by index or by tuple unpacking)."""
+
+    class T(ast.NodeTransformer):
+        def visit_Call(self, node):
+            self.generic_visit(node)
+            u = is_unpack(node)
+            if u is not None and isinstance(u[1], int):
+                return ast.Subscript(value=u[0], slice=ast.Constant(value=u[1]), ctx=ast.Load())
+            return node
+
+    return T().visit(copy.deepcopy(e))
+
+
+def node_exprs(n: Node) -> List[ast.AST]:
+    """The expressions evaluated by a CFG node (test expression, assigned value, call statement ...)."""
+    if n.ast is None or n.kind not in ("stmt", "test", "for", "with"):
+        return []
+    if n.kind == "test":
+        return [n.ast]
+    if n.kind in ("for", "with"):
+        return _node_roots(n)
+    st = n.ast
+    if isinstance(st, (ast.Assign, ast.AnnAssign, ast.AugAssign, ast.Return, ast.Expr)):
+        return [st.value] if st.value is not None else []
+    if isinstance(st, ast.Raise):
+        return [st.exc] if st.exc is not None else []
+    if isinstance(st, ast.Assert):
+        return [st.test]
+    return []
+
+
+def can_reach(cfg: CFG, target: Node) -> Set[int]:
+    seen = {target.id}
+    st = [target.id]
+    while st:
+        x = st.pop()
+        for p, _k in cfg.pred[x]:
+            if p not in seen:
+                seen.add(p)
+                st.append(p)
+    return seen & cfg.reachable()
+
+
+def possible_guards(rd: "Reach", target: Node, ingredient: Callable[[ast.AST], bool], recognised: Iterable[int] = ()) -> List[Node]:
+    """CFG nodes from which ``target`` is reachable whose (expanded) expression has the
+    ingredients of the guard looked for but was not understood by the recogniser.  Used to
+    decide between VIOLATION (no such node: the guard is positively absent) and
+    AnalysisError (the guard may be present in a shape the rule cannot parse)."""
+    cfg = rd.cfg
+    rec = set(recognised)
+    out = []
+    for i in sorted(can_reach(cfg, target)):
+        n = cfg.nodes[i]
+        if i == target.id or i in rec:
+            continue
+        for e in node_exprs(n):
+            try:
+                E = rd.expand(e, n)
+            except RecursionError:  # pragma: no cover
+                continue
+            if ingredient(E):
+                out.append(n)
+                break
+    return out
+
+
+def absent_or_unknown(rd: "Reach", target: Node, ingredient, recognised, what: str):
+    """Raise AnalysisError when an unrecognised construct with the guard's ingredients can
+    reach ``target``; return normally (caller reports the VIOLATION) when there is none."""
+    g = possible_guards(rd, target, ingredient, recognised)
+    if g:
+        raise AnalysisError("%s: %s may be established by a construct the rule does not understand: %s" % (rd.fi.qualname, what, q.unparse(g[0].ast)[:100].replace("\n", " ")))
+
+
+def guarding_tests(cfg: CFG, target: Node) -> List[Tuple[Node, str]]:
+    """(test node, edge kind) pairs such that the edge leads to ``target`` while the
+    opposite edge of the same test cannot reach it (the tests ``target`` is control-dependent on)."""
+    cr = can_reach(cfg, target)
+    out = []
+    for i in sorted(cr):
+        n = cfg.nodes[i]
+        if n.kind != "test":
+            continue
+        yes = [k for s, k in cfg.succ[i] if k in ("true", "false") and s in cr]
+        no = [k for s, k in cfg.succ[i] if k in ("true", "false") and s not in cr]
+        if yes and no:
+            out.append((n, yes[0]))
+    return out
